@@ -10,7 +10,9 @@ import (
 	"go/token"
 	"go/types"
 	"os"
+	"sort"
 	"strings"
+	"time"
 
 	"golang.org/x/tools/go/ssa"
 )
@@ -44,12 +46,19 @@ type Exec struct {
 	LazyPtr      bool             // materialise unknown pointer fields on first load
 	// WidenAtEntry: explore, at every loop entry, one generic iteration (heap forgotten, loop phis unknown) that
 	// subsumes all iterations; concrete unrolling beyond Unroll visits is then simply cut. Keeps path counts linear.
-	WidenAtEntry   bool
-	texts          map[string]textMeaning // abs_text.go
-	WriterContract bool                   // unknown io.Writer: split each Write into (all accepted, nil) / (short, error)
-	FmtModel       bool                   // abs_fmt.go: model what fmt/strconv/hex produce as texts
-	ReaderMayFail  bool                   // every Read of a modelled bytes.Reader may instead fail with a sticky non-EOF error (C10.6)
-	Stats          struct{ Instrs, Calls, Forks, Widen, CopyLoops int }
+	WidenAtEntry       bool
+	texts              map[string]textMeaning // abs_text.go
+	WriterContract     bool                   // unknown io.Writer: split each Write into (all accepted, nil) / (short, error)
+	FmtModel           bool                   // abs_fmt.go: model what fmt/strconv/hex produce as texts
+	StrictHeap         bool                   // give up (Budget) as soon as the whole heap would have to be forgotten
+	MaxTime            time.Duration          // wall-clock limit per Exec (same effect as MaxInstrs)
+	started            time.Time
+	MaxInstrs          int    // interpreted instructions per Exec before the run is given up as undecided (Budget)
+	MapModel           bool   // maps made by the analysed code with constant integer keys are tracked (update, lookup, range, len)
+	SortModel          bool   // abs_sort.go: interpret sort.Sort/Stable/Slice/SliceStable on small slices
+	ReaderFailSentinel string // the error a failing source returns (default: an error of its own); e.g. "io.ErrUnexpectedEOF"
+	ReaderMayFail      bool   // every Read of a modelled bytes.Reader may instead fail with a sticky non-EOF error (C10.6)
+	Stats              struct{ Instrs, Calls, Forks, Widen, CopyLoops int }
 }
 
 type Frame struct {
@@ -134,7 +143,7 @@ type callRes struct {
 
 func NewExec(p *Program) *Exec {
 	return &Exec{P: p, syms: NewSymTab(), objType: map[int]types.Type{}, constObj: map[int]bool{}, globals: map[*ssa.Global]int{},
-		loops: map[*ssa.Function]map[*ssa.BasicBlock]*loopInfo{}, MaxPaths: 20000, MaxDepth: 24, Unroll: 40, Unsupported: map[string]int{}, NoInline: map[*ssa.Function]bool{}}
+		loops: map[*ssa.Function]map[*ssa.BasicBlock]*loopInfo{}, MaxPaths: 20000, MaxInstrs: 5000000, MaxTime: 300 * time.Second, MaxDepth: 24, Unroll: 40, Unsupported: map[string]int{}, NoInline: map[*ssa.Function]bool{}}
 }
 
 func (ex *Exec) NewState() *State {
@@ -716,6 +725,19 @@ func (ex *Exec) execFrom(fr *Frame, st *State, b *ssa.BasicBlock, idx int, prev 
 		}
 		in := b.Instrs[i]
 		ex.Stats.Instrs++
+		if ex.Stats.Instrs&1023 == 0 && ex.MaxTime > 0 {
+			if ex.started.IsZero() {
+				ex.started = time.Now()
+			} else if time.Since(ex.started) > ex.MaxTime {
+				ex.Budget = true
+				return nil
+			}
+		}
+		if ex.MaxInstrs > 0 && ex.Stats.Instrs > ex.MaxInstrs {
+			// a run that does not converge is an undecided obligation, never a hanging check
+			ex.Budget = true
+			return nil
+		}
 		switch x := in.(type) {
 		case *ssa.DebugRef:
 		case *ssa.If:
@@ -1005,19 +1027,86 @@ func (ex *Exec) step(fr *Frame, st *State, in ssa.Instruction) ([]Outcome, bool)
 		id := ex.newObj(st, arr, nil)
 		fr.regs[x] = &SliceV{Obj: id, Off: mkConst(0, 64, true), Len: ln, Cap: ln}
 	case *ssa.MakeMap:
+		mt := x.Type().Underlying().(*types.Map)
+		if _, _, intKey := intTypeInfo(mt.Key()); ex.MapModel && intKey {
+			// a map made by the analysed code, with integer keys: tracked while all its updates use constant keys
+			id := ex.newObj(st, &MapV{ElemT: mt.Elem(), Dyn: true}, nil)
+			fr.regs[x] = &MapV{ElemT: mt.Elem(), Obj: id, Dyn: true}
+			break
+		}
 		id := ex.newObj(st, &MapV{Unk: true, ElemT: x.Type().Underlying().(*types.Map).Elem()}, nil)
 		fr.regs[x] = &MapV{Unk: true, ElemT: x.Type().Underlying().(*types.Map).Elem(), Obj: id}
 	case *ssa.MakeChan:
 		fr.regs[x] = &TopV{T: x.Type()}
 	case *ssa.MapUpdate:
 		// unknown maps stay unknown
+		if mv, ok := ex.eval(fr, st, x.Map).(*MapV); ok && mv.Dyn {
+			if hm, ok := st.heap[mv.Obj].(*MapV); ok && hm.Dyn && !hm.Unk {
+				nm := &MapV{ElemT: hm.ElemT, Dyn: true, Keys: append([]int64{}, hm.Keys...), Vals: append([]Val{}, hm.Vals...)}
+				ki, _ := ex.eval(fr, st, x.Key).(*IntV)
+				kc, isK := int64(0), false
+				if ki != nil {
+					kc, isK = st.ConstOf(ki)
+				}
+				if !isK {
+					nm.Unk = true
+				} else {
+					v := ex.eval(fr, st, x.Value)
+					found := false
+					for i, kk := range nm.Keys {
+						if kk == kc {
+							nm.Vals[i] = v
+							found = true
+						}
+					}
+					if !found {
+						nm.Keys = append(nm.Keys, kc)
+						nm.Vals = append(nm.Vals, v)
+					}
+				}
+				st.heap[mv.Obj] = nm
+			}
+		}
 	case *ssa.Send:
 	case *ssa.Select:
 		fr.regs[x] = ex.topOf(st, x.Type(), "select")
 		ex.unsupported("select")
 	case *ssa.Range:
+		if mv, ok := ex.eval(fr, st, x.X).(*MapV); ok && mv.Dyn {
+			if hm, ok := st.heap[mv.Obj].(*MapV); ok && hm.Dyn && !hm.Unk {
+				// iteration over a tracked map: ascending key order (Go leaves the order unspecified; code whose result
+				// depends on it is a determinism question, C03.5)
+				idx := make([]int, len(hm.Keys))
+				for i := range idx {
+					idx[i] = i
+				}
+				sort.Slice(idx, func(a, b int) bool { return hm.Keys[idx[a]] < hm.Keys[idx[b]] })
+				it := &MapIterV{}
+				for _, i := range idx {
+					it.Keys = append(it.Keys, hm.Keys[i])
+					it.Vals = append(it.Vals, hm.Vals[i])
+				}
+				id := ex.newObj(st, it, nil)
+				fr.regs[x] = &PtrV{Obj: id}
+				break
+			}
+		}
 		fr.regs[x] = &TopV{T: x.Type()}
 	case *ssa.Next:
+		if pv, ok := ex.eval(fr, st, x.Iter).(*PtrV); ok && !pv.Unk && !pv.Nil {
+			if it, ok := st.heap[pv.Obj].(*MapIterV); ok {
+				tt := x.Type().(*types.Tuple)
+				if it.Pos >= len(it.Keys) {
+					fr.regs[x] = &TupleV{Vs: []Val{&BoolV{Known: true, Val: false}, ex.zeroOf(tt.At(1).Type()), ex.zeroOf(tt.At(2).Type())}}
+				} else {
+					w, sg, _ := intTypeInfo(tt.At(1).Type())
+					var kv Val = mkConst(it.Keys[it.Pos], w, sg)
+					fr.regs[x] = &TupleV{Vs: []Val{&BoolV{Known: true, Val: true}, kv, it.Vals[it.Pos]}}
+					st.heap[pv.Obj] = &MapIterV{Keys: it.Keys, Vals: it.Vals, Pos: it.Pos + 1}
+				}
+				break
+			}
+		}
 		// iteration over map/string: unknown continuation
 		tv := &TupleV{}
 		tt := x.Type().(*types.Tuple)
